@@ -204,6 +204,17 @@ def o_rule_mirror(hist, tol=1e-9):
     return out
 
 
+def o_solver_axb(hist, tol=1e-7):
+    """Every Newton increment of every attempt solves the iteration matrix of that very iteration (any back-end)."""
+    out = []
+    for r in hist['attempts']:
+        if r.get('axb_err', 0.0) > tol:
+            out.append(V('solver_axb', 'attempt %d at t=%.6f h=%.4g: the increment returned by the solver leaves a relative residual of %.3g '
+                         'against the matrix of that iteration (stale factorisation)' % (r['k'], r['t'], r['h'], r['axb_err']), what='stale_factors'))
+            break
+    return out
+
+
 def o_acceptance(hist, ss):
     """converged <=> |last increment| <= tol (or chatter); accepted state == evaluation point - last increment."""
     out = []
